@@ -211,6 +211,9 @@ def E_partial_unfold(shape, mode, sb, se, ravel):
     return _scatter(pos, n).reshape(out_shape)
 
 
+_SPELL = [0, 0]
+
+
 def E_matricize(shape, rows, cols):
     n = prod(shape)
     I = np.indices(shape).reshape(len(shape), -1)
@@ -343,10 +346,19 @@ def run_case(case, ctx):
     check("tensor_to_vec", {}, lambda T: B.tensor_to_vec(T), np.arange(n, dtype=np.int64),
           ("vec_to_tensor", lambda v: B.vec_to_tensor(v, tuple(shape))))
     # unfold / fold
+    # flags and single modes as a caller's arithmetic produces them: NumPy integers (np.arange, argmax), NumPy booleans (a reduction),
+    # 0/1 -- rotated so that every spelling meets every function
+    def as_mode(m_):
+        _SPELL[0] += 1
+        return [int, np.int64, np.intp, int, np.int32][_SPELL[0] % 5](m_)
+
+    def as_flag(b_):
+        _SPELL[1] += 1
+        return ([True, 1, np.True_, True, np.bool_(True)] if b_ else [False, 0, np.False_, False, np.bool_(False)])[_SPELL[1] % 5]
     for mode in range(nd):
         E = E_unfold(shape, mode)
-        check("unfold", {"mode": mode}, lambda T, mode=mode: tl.unfold(T, mode), E,
-              ("fold", lambda U, mode=mode: tl.fold(U, mode, tuple(shape))))
+        check("unfold", {"mode": mode}, lambda T, mode=mode: tl.unfold(T, as_mode(mode)), E,
+              ("fold", lambda U, mode=mode: tl.fold(U, as_mode(mode), tuple(shape))))
     # partial unfold / fold / vec
     skip_pairs = [(sb, se) for sb in range(nd) for se in range(nd - sb)]
     if high and nd > 8:
@@ -363,7 +375,7 @@ def run_case(case, ctx):
                     E = E_partial_unfold(shape, mode, sb, se, ravel)
                     params = {"mode": mode, "skip_begin": sb, "skip_end": se, "ravel_tensors": ravel}
                     check("partial_unfold", params,
-                          lambda T, mode=mode, sb=sb, se=se, ravel=ravel: B.partial_unfold(T, mode=mode, skip_begin=sb, skip_end=se, ravel_tensors=ravel),
+                          lambda T, mode=mode, sb=sb, se=se, ravel=ravel: B.partial_unfold(T, mode=as_mode(mode), skip_begin=sb, skip_end=se, ravel_tensors=as_flag(ravel)),
                           E,
                           ("partial_fold", lambda U, mode=mode, sb=sb, se=se: B.partial_fold(U, mode, tuple(shape), skip_begin=sb, skip_end=se)))
             E = E_partial_unfold(shape, 0, sb, se, True)
@@ -396,10 +408,10 @@ def run_case(case, ctx):
                       lambda T, rows=rows: B.matricize(T, list(rows)), E)
                 if len(rows) == 1:
                     check("matricize", {"row_modes": rows[0], "column_modes": None},
-                          lambda T, rows=rows: B.matricize(T, rows[0]), E)
+                          lambda T, rows=rows: B.matricize(T, as_mode(rows[0])), E)
             if len(cols) == 1:
                 check("matricize", {"row_modes": rows, "column_modes": cols[0]},
-                      lambda T, rows=rows, cols=cols: B.matricize(T, rows, cols[0]), E)
+                      lambda T, rows=rows, cols=cols: B.matricize(T, rows, as_mode(cols[0])), E)
     # the caller's `shape` argument may be a list that is reused afterwards: it must come back untouched, and a second call with
     # the same list object must still be right
     if dt == DTYPES[-3] and nd >= 2:
